@@ -274,9 +274,27 @@ def run(ctx):
         fe = field_execs(b, lib)
         lhs = once(b, fe, "lhs", "once:%s|lhs" % bid)
         idx = [c for c in b.calls if c.callee == "instruction::slicing::Slicing::exec_index"]
-        names = [(recv(b, c.args[0]) or (0, ("?",)))[1][:1] for c in idx]
+        ib = b          # the body that evaluates the three bounds: Slicing::exec or a helper that belongs to it alone
+        gate = None     # the call through which exec reaches that helper
+        if not idx:
+            from ..owners import for_crate
+            for hb in for_crate(lib).cluster(bid):
+                hidx = [c for c in hb.calls if c.callee == "instruction::slicing::Slicing::exec_index"]
+                calls_h = [c for c in b.calls if c.callee == hb.id]
+                if hb is not b and len(hidx) == 3 and len(calls_h) == 1:
+                    ib, idx, gate = hb, hidx, calls_h[0]
+                    break
+        names = [(recv(ib, c.args[0]) or (0, ("?",)))[1][:1] for c in idx]
         key = "order:%s|lhs<start<stop<step" % bid
-        if lhs is not None and names == [("start",), ("stop",), ("step",)] and b.dominates(lhs.bb, idx[0].bb) and \
+        if gate is not None:
+            ok_helper = lhs is not None and names == [("start",), ("stop",), ("step",)] and b.dominates(lhs.bb, gate.bb) and \
+                not in_cycle(b, gate.bb) and ib.dominates(idx[0].bb, idx[1].bb) and ib.dominates(idx[1].bb, idx[2].bb) and \
+                not any(in_cycle(ib, c.bb) for c in idx)
+            if ok_helper:
+                res.ok(key, b.where(), "bounds evaluated in order by helper %s, after the sequence" % ib.id)
+            else:
+                res.bad(key, "Slicing::exec must evaluate the sequence, then start, stop, step, each once (found bounds %s in %s)" % (names, ib.id), b.where())
+        elif lhs is not None and names == [("start",), ("stop",), ("step",)] and b.dominates(lhs.bb, idx[0].bb) and \
                 b.dominates(idx[0].bb, idx[1].bb) and b.dominates(idx[1].bb, idx[2].bb) and not any(in_cycle(b, c.bb) for c in idx):
             res.ok(key, b.where())
         else:
